@@ -14,7 +14,7 @@
     get / insert / remove / retain; they are modelled by their lookup functions (iteration
     order is never observable).  Time is [N] (an `Instant` as an offset from a fixed base).
     WireGuard (ana-gotatun `Tunn`) is an abstract endpoint: see [Section WG]. *)
-From Coq Require Export List NArith Bool Lia.
+From Coq Require Export List NArith Bool.
 From Sci Require Export Gen.SnapRegistry.
 Export ListNotations.
 Local Open Scope N_scope.
